@@ -1,6 +1,7 @@
 package drv
 
 import (
+	"sync/atomic"
 	"encoding/json"
 	"fmt"
 	"math/rand"
@@ -59,6 +60,35 @@ type relayWorld struct {
 	cpreds map[string]*wire.Predicate
 	mu     sync.Mutex
 	dflt   []string
+	gate   *relayGate
+}
+
+// relayGate holds the first goroutine that evaluates a predicate of the given kind ("cache": a cache predicate, i.e.
+// inside Put between the scan of the consumers and the insertion into the cache; "cons": a consumer's predicate, i.e.
+// inside the scan) until it is released. Predicates are user code called by the relay: a natural scheduling point that
+// needs no hook in the library. The gate only steers the interleaving; verdicts come from the recorded trace.
+type relayGate struct {
+	kind    string
+	fired   int32
+	reached chan struct{}
+	release chan struct{}
+}
+
+func (w *relayWorld) hit(kind string) {
+	g := w.gate
+	if g == nil || g.kind != kind || !atomic.CompareAndSwapInt32(&g.fired, 0, 1) {
+		return
+	}
+	close(g.reached)
+	<-g.release
+}
+
+func (w *relayWorld) pred(kind, p string) wire.Predicate {
+	base := relayPred(p)
+	return func(e *wire.Envelope) bool {
+		w.hit(kind)
+		return base(e)
+	}
 }
 
 func newRelayWorld(envNames, consNames []string, log func(c, e string)) *relayWorld {
@@ -77,7 +107,7 @@ func newRelayWorld(envNames, consNames []string, log func(c, e string)) *relayWo
 		w.cons[n] = &recConsumer{name: n, nm: nm, log: log}
 	}
 	for _, k := range []string{"A", "AB"} {
-		p := relayPred(k)
+		p := w.pred("cache", k)
 		w.cpreds[k] = &p
 	}
 	w.r.SetDefaultMsgHandler(func(e *wire.Envelope) {
@@ -97,7 +127,7 @@ func (w *relayWorld) exec(a *tla.Action) string {
 	case "Put":
 		w.r.Put(w.envs[a.Args[0].(string)])
 	case "Subscribe":
-		if err := w.r.Subscribe(w.cons[a.Args[0].(string)], relayPred(a.Args[1].(string))); err != nil {
+		if err := w.r.Subscribe(w.cons[a.Args[0].(string)], w.pred("cons", a.Args[1].(string))); err != nil {
 			return "err"
 		}
 	case "CachePred":
@@ -161,7 +191,11 @@ func TestRelaySeq(t *testing.T) {
 			func() {
 				defer func() {
 					if p := recover(); p != nil {
-						res.Violate("C18", "monitor", "panic-or-leak", fmt.Sprintf("relay history ends with: %v", p),
+						kind, sig := "monitor", "panic"
+						if strings.Contains(fmt.Sprint(p), "blocked goroutines remain") { // a leak is not what C18 states
+							kind, sig = "conformance", "leftover-goroutines"
+						}
+						res.Violate("C18", kind, sig, fmt.Sprintf("relay history ends with: %v", p),
 							relayReplay{Driver: "relayseq", Steps: tla.Steps(path)})
 					}
 				}()
@@ -297,7 +331,7 @@ var relayPanic struct {
 	what string
 }
 
-func relayRunConcurrent(rng *rand.Rand, nWorkers, opsPerWorker int, log *relayLog) (w *relayWorld, put map[string]bool, consNames []string) {
+func relayRunConcurrent(rng *rand.Rand, nWorkers, opsPerWorker int, log *relayLog, steer ...string) (w *relayWorld, put map[string]bool, consNames []string) {
 	var envNames []string
 	for i := 1; i <= nWorkers*opsPerWorker; i++ {
 		envNames = append(envNames, fmt.Sprintf("a%d", i), fmt.Sprintf("b%d", i))
@@ -307,6 +341,9 @@ func relayRunConcurrent(rng *rand.Rand, nWorkers, opsPerWorker int, log *relayLo
 	}
 	consNames = append(consNames, "cz")
 	w = newRelayWorld(envNames, consNames, nil)
+	if len(steer) > 0 && steer[0] != "" {
+		w.gate = &relayGate{kind: steer[0], reached: make(chan struct{}), release: make(chan struct{})}
+	}
 	put = map[string]bool{}
 	var putMu sync.Mutex
 	do := func(op, a1, a2 string) {
@@ -395,11 +432,126 @@ func relayRunConcurrent(rng *rand.Rand, nWorkers, opsPerWorker int, log *relayLo
 		}(k)
 	}
 	close(start)
+	if g := w.gate; g != nil {
+		// one operation is held inside a predicate while the others run on; then it is let go
+		select {
+		case <-g.reached:
+			time.Sleep(time.Duration(200+rng.Intn(1800)) * time.Microsecond)
+		case <-time.After(20 * time.Millisecond):
+		}
+		close(g.release)
+	}
 	wg.Wait()
 	// drain the cache into a final catch-all consumer; whatever it gets had been cached
 	do("Subscribe", "cz", "AB")
 	w.waitSettled(put)
 	return w, put, consNames
+}
+
+// relayRaceOp is one operation of a two-operation race scenario.
+type relayRaceOp struct{ op, a1, a2 string }
+
+// relayRaces enumerates the race scenarios: a prelude executed sequentially, one operation (a Put) that is held at a
+// gate - inside the evaluation of a cache predicate (between the scan of the consumers and the cache insertion) or of a
+// consumer's predicate (inside the scan) - and a second operation issued while the first one is held.
+func relayRaces() (out []struct {
+	prelude     []relayRaceOp
+	held, other relayRaceOp
+	gate        string
+}) {
+	preludes := [][]relayRaceOp{
+		{{"CachePred", "A", ""}},
+		{{"CachePred", "AB", ""}, {"Subscribe", "c1", "B"}},
+		{{"Subscribe", "c1", "B"}},
+		{{"Subscribe", "c1", "A"}},
+		{{"CachePred", "A", ""}, {"Subscribe", "c1", "A"}, {"CloseConsumer", "c1", ""}},
+		{{"CachePred", "A", ""}, {"Put", "a3", ""}},
+	}
+	others := []relayRaceOp{{"Subscribe", "c2", "A"}, {"Subscribe", "c2", "B"}, {"Subscribe", "c2", "AB"}, {"Put", "a2", ""}, {"Put", "b1", ""},
+		{"CachePred", "AB", ""}, {"CachePred", "A", ""}, {"ReleasePred", "A", ""}, {"ReleasePred", "AB", ""}, {"CloseConsumer", "c1", ""}}
+	for _, pre := range preludes {
+		for _, gate := range []string{"cache", "cons"} {
+			for _, held := range []relayRaceOp{{"Put", "a1", ""}, {"Put", "b2", ""}} {
+				for _, o := range others {
+					// the alphabet of Relay.tla: a cache predicate is enabled once and released only when enabled,
+					// a consumer is closed once
+					cacheOn, closed := map[string]bool{}, map[string]bool{}
+					for _, x := range pre {
+						switch x.op {
+						case "CachePred":
+							cacheOn[x.a1] = true
+						case "CloseConsumer":
+							closed[x.a1] = true
+						}
+					}
+					if (o.op == "CachePred" && cacheOn[o.a1]) || (o.op == "ReleasePred" && !cacheOn[o.a1]) || (o.op == "CloseConsumer" && closed[o.a1]) {
+						continue
+					}
+					out = append(out, struct {
+						prelude     []relayRaceOp
+						held, other relayRaceOp
+						gate        string
+					}{pre, held, o, gate})
+				}
+			}
+		}
+	}
+	return
+}
+
+// relayRunRace executes one race scenario on a real relay and records it like a concurrent run.
+func relayRunRace(prelude []relayRaceOp, held, other relayRaceOp, gate string, log *relayLog, consNames []string) (w *relayWorld, put map[string]bool, gated bool) {
+	envNames := []string{"a1", "a2", "a3", "b1", "b2"}
+	w = newRelayWorld(envNames, consNames, nil)
+	put = map[string]bool{}
+	do := func(o relayRaceOp) {
+		if o.op == "Put" {
+			put[o.a1] = true
+		}
+		id := log.call(o.op, o.a1, o.a2)
+		var args []tla.Val
+		for _, a := range []string{o.a1, o.a2} {
+			if a != "" {
+				args = append(args, a)
+			}
+		}
+		r := func() (r string) {
+			defer func() {
+				if p := recover(); p != nil {
+					r = "panic"
+				}
+			}()
+			return w.exec(&tla.Action{Name: o.op, Args: args})
+		}()
+		log.ret(id, r)
+	}
+	for _, o := range prelude {
+		do(o)
+	}
+	put[held.a1] = true
+	if other.op == "Put" {
+		put[other.a1] = true
+	}
+	w.gate = &relayGate{kind: gate, reached: make(chan struct{}), release: make(chan struct{})}
+	d1, d2 := make(chan struct{}), make(chan struct{})
+	go func() { defer close(d1); do(held) }()
+	select {
+	case <-w.gate.reached:
+		gated = true
+	case <-d1:
+	case <-time.After(50 * time.Millisecond):
+	}
+	go func() { defer close(d2); do(other) }()
+	select { // the second operation completes - or waits for the first one, which the relay's locks decide
+	case <-d2:
+	case <-time.After(3 * time.Millisecond):
+	}
+	close(w.gate.release)
+	<-d1
+	<-d2
+	do(relayRaceOp{"Subscribe", "cz", "AB"})
+	w.waitSettled(put)
+	return
 }
 
 // relayAccount is the exactly-once accounting monitor: it needs no knowledge
@@ -473,7 +625,14 @@ func TestRelayTrace(t *testing.T) {
 	for i := 0; i < traces; i++ {
 		rng := rand.New(rand.NewSource(Seed()*104729 + int64(i)))
 		log := &relayLog{}
-		w, put, consNames := relayRunConcurrent(rng, workers, ops, log)
+		steer := ""
+		if k := EnvInt("VERIF_TRACE_STEER_EVERY", 0); k > 0 && i%k == k-1 { // thorough tier: some random runs with one operation held at a gate
+			steer = []string{"cache", "cons"}[(i/k)%2]
+		}
+		w, put, consNames := relayRunConcurrent(rng, workers, ops, log, steer)
+		if steer != "" && w.gate != nil && atomic.LoadInt32(&w.gate.fired) == 1 {
+			res.Add("steered_"+steer, 1)
+		}
 		fin := relayEvent{Ev: "final", Got: map[string][]string{}, Dflt: []string{}, Cch: []string{}}
 		for _, cn := range consNames {
 			c := w.cons[cn]
@@ -500,6 +659,50 @@ func TestRelayTrace(t *testing.T) {
 		res.Add("ops", len(log.evs)/2)
 		if i == 0 {
 			res.Sample(map[string]any{"kind": "recorded concurrent trace", "events": log.evs})
+		}
+	}
+	// race scenarios: two operations, the first held at a gate while the second is issued
+	races := relayRaces()
+	reps := EnvInt("VERIF_RACE_REPS", 1)
+	for rep := 0; rep < reps; rep++ {
+		for i, rc := range races {
+			log := &relayLog{}
+			var consNames []string
+			for k := 1; k <= workers*2; k++ {
+				consNames = append(consNames, fmt.Sprintf("c%d", k))
+			}
+			consNames = append(consNames, "cz")
+			w, put, gated := relayRunRace(rc.prelude, rc.held, rc.other, rc.gate, log, consNames)
+			if gated {
+				res.Add("races_gated", 1)
+			}
+			fin := relayEvent{Ev: "final", Got: map[string][]string{}, Dflt: []string{}, Cch: []string{}}
+			for _, cn := range consNames {
+				c := w.cons[cn]
+				c.mu.Lock()
+				fin.Got[cn] = append([]string{}, c.got...)
+				c.mu.Unlock()
+			}
+			w.mu.Lock()
+			fin.Dflt = append(fin.Dflt, w.dflt...)
+			w.mu.Unlock()
+			if what := relayAccount(w, put, nil); what != "" {
+				res.Violate("C18", "monitor", "account|"+strings.Fields(what)[2], what, map[string]any{"driver": "relayrace", "race": i, "events": log.evs})
+			}
+			for _, e := range log.evs {
+				_ = enc.Encode(e)
+				lines++
+			}
+			_ = enc.Encode(fin)
+			_ = enc.Encode(relayEvent{Ev: "reset", Dflt: []string{}, Cch: []string{}})
+			lines += 2
+			for _, c := range w.cons {
+				_ = c.Close()
+			}
+			res.Add("races", 1)
+			if rep == 0 && i == 0 {
+				res.Sample(map[string]any{"kind": "recorded race scenario", "gate": rc.gate, "events": log.evs})
+			}
 		}
 	}
 	res.Add("traces", traces)
